@@ -78,7 +78,7 @@ they are not among the quantities the property lists and ARE path dependent (see
 Defects
   repaired in /repo, each re-found on the reverted tree (fixes/revert-2854a61.diff: e-only / obliquity-only update left
   the tidal terms stale; fixes/revert-7baff3f.diff: fixed_q / fixed_dt update left the CPL/CTL Love dictionary stale);
-  KF-C13-complex-surface-temperature (known_findings.d/C13.json, replays/C13-complex-surface-temperature.json,
+  KF-C13-complex-surface-temperature (known_findings.json, replays/C13-complex-surface-temperature.json,
   proposed repair out/proposed-fix-C13-1.diff): with a convection/conduction cooling model the one-pass surface-
   temperature <-> cooling feedback leaves (insolation + internal heating) negative, calc_equilibrium_temperature
   returns a complex number and the next setter raises numba TypingError - in the history but not in a fresh world.
